@@ -77,6 +77,11 @@ func NewBackend(kind string) (nodeenrollment.Storage, func(), error) {
 		}
 		seq := runDirSeq.Add(1)
 		name := fmt.Sprintf("run-%d-%d", os.Getpid(), seq)
+		if seq%5 == 0 {
+			// a directory name with characters that mean something to shells and pattern matchers, and nothing
+			// to the file system
+			name = fmt.Sprintf("run[%d]-%d?*", os.Getpid(), seq)
+		}
 		dir := filepath.Join(root, ".build", name)
 		// the same directory as an operator may spell it in a configuration file: not every fifth
 		// spelling is in the form filepath.Clean would produce
@@ -181,6 +186,9 @@ type FlakyWrapper struct {
 	hook      func()
 	// KeyIDFails makes KeyId return an error (Encrypt and Decrypt keep working)
 	KeyIDFails bool
+	// KeyIDOverride, if set, is what KeyId reports (a key service whose current key version has moved on;
+	// it still opens what older versions sealed)
+	KeyIDOverride string
 }
 
 // ErrWrapperDown is what an armed FlakyWrapper returns
@@ -224,6 +232,12 @@ func (f *FlakyWrapper) KeyId(ctx context.Context) (string, error) {
 	f.mu.Unlock()
 	if fail {
 		return "", ErrNoKeyID
+	}
+	f.mu.Lock()
+	ov := f.KeyIDOverride
+	f.mu.Unlock()
+	if ov != "" {
+		return ov, nil
 	}
 	return f.Wrapper.KeyId(ctx)
 }
